@@ -173,6 +173,16 @@ add("C19", "model_checking",
     "stateless schedule exploration of the real threads under a controlled scheduler with iterative preemption bounding (CHESS-style)",
     "DESIGN.md section 5 C19")
 
+add("C17", "model_checking",
+    "Every class hierarchy of <= 3 (thorough 4) classes x every assignment of 0-2 definitions of one method name per class from a pool "
+    "(with recurse and call_next users), each optionally marked extend_super, x instances of every class x every corpus value: defining "
+    "a class never changes the outcome table of an existing class (before / after differential), merged behaviour equals R1-R5 where "
+    "the statement speaks, and self is the instance in every entered body.",
+    "Trusted: R1-R5 reference; abstains where the statement / documentation is silent (unmarked subclass definitions, several bases without "
+    "own definition, mark on a later definition only, same signature from two unrelated bases).",
+    "bounded-exhaustive enumeration of class programs on the real implementation: before/after differential + reference model",
+    "DESIGN.md section 5 C17")
+
 ALL = [f"C{i:02d}" for i in range(1, 21)]
 REASON_PENDING = "check not built yet in this round (planned: DESIGN.md section 5); not claimed until its machinery exists"
 
